@@ -39,6 +39,12 @@ fn main() {
     let out_rs = &args[4];
     let out_map = &args[5];
     let canaries = args.iter().any(|a| a == "--canaries");
+    let stubs: Vec<String> = match args.iter().position(|a| a == "--stub") {
+        Some(i) if i + 1 < args.len() => args[i + 1].split(',').map(|s| s.trim().to_string()).filter(|s| !s.is_empty()).collect(),
+        _ => Vec::new(),
+    };
+    let mut stubbed: Vec<String> = Vec::new();
+    let mut stub_items: Vec<Value> = Vec::new();
 
     let unit: Value = serde_json::from_str(&read(&format!("{}/unit.json", unit_dir)))
         .unwrap_or_else(|e| die(&format!("unit.json: {}", e)));
@@ -116,7 +122,7 @@ fn main() {
             .iter()
             .map(|v| v.as_str().unwrap().to_string())
             .collect();
-        let extracted = select::extract(&file, &sels, rel);
+        let extracted = select::extract(&file, &sels, rel, false);
         for group in extracted {
             // group = either a free item or an impl block with chosen methods
             select::emit_group(
@@ -131,7 +137,24 @@ fn main() {
                 &mut rules_fired,
                 &mut used_contracts,
                 canaries,
+                false,
             );
+        }
+        // auto-stubs (second pass of the driver): items the extracted code refers to but that are not
+        // part of the unit are emitted as `external_body` signatures without any contract
+        if !stubs.is_empty() && src["macro"].as_str().is_none() {
+            let already: Vec<String> = items_map.iter().map(|v| v["selector"].as_str().unwrap_or("").to_string()).collect();
+            let want: Vec<String> = stubs.iter().filter(|s| !already.contains(s) && !stubbed.contains(*s)).cloned().collect();
+            for w in want {
+                let gs = select::extract(&file, &[w.clone()], rel, true);
+                if gs.is_empty() {
+                    continue;
+                }
+                stubbed.push(w.clone());
+                for g in gs {
+                    select::emit_group(g, rel, &text, module, &cfg, &contracts, &mut pr, &mut stub_items, &mut rules_fired, &mut used_contracts, false, true);
+                }
+            }
         }
         if module.is_some() {
             pr.raw_line("}", "glue");
@@ -169,6 +192,7 @@ fn main() {
         "unit": unit["name"],
         "items": items_map,
         "rules_fired": rules_fired,
+        "stubbed": stub_items,
         "lines": line_map,
     });
     fs::write(out_map, serde_json::to_string(&map).unwrap())
